@@ -3,9 +3,9 @@ ID = "C29"
 FAMILY = "control"
 RULE = ("mode 1: field sets (1..12 fields, keys from the daemon's vocabulary and random upper-case keys, values with line feeds, "
         "carriage returns, backslashes, backslash-n text, colons, leading / trailing blanks, empty, 0..300 bytes, every byte "
-        "value) with and without a payload (0..5000 bytes, including bytes that look like headers) are written by the real "
+        "value; one value of 4095..33000 bytes, around and beyond every plausible read-block size) with and without a payload (0..5000 bytes, including bytes that look like headers) are written by the real "
         "ControlServer::Impl::send_response and read back by the real client parse_response over a socketpair; mode 2: the "
-        "client reader on arbitrary / truncated bytes; mode 5: a real Node with 0..40 stored chunks (some of them in the last second of their lifetime, or just past it) answers LIST through the "
+        "client reader on arbitrary / truncated bytes; mode 5: a real Node with 0..300 (thorough: 1000) stored chunks (some of them in the last second of their lifetime, or just past it) answers LIST through the "
         "real handler and the answer is read by the real client and split the way `eph list` does. Oracle (independent of "
         "the model): the client must end up with exactly the fields, success flag and payload handed to send_response, and "
         "LIST must show exactly as many entries as the node holds. non-trivial = a value containing LF / CR / backslash or a "
@@ -60,11 +60,22 @@ def generate(rng, tier):
         else:
             ints += [0]
         cases.append({"ints": ints, "tag": "roundtrip"})
+    # long values (a chunk list is one header line of ~82 bytes per chunk): lengths around and far beyond any read-block size a
+    # client may use, alone and followed by another field and a payload
+    for ln in [4095, 4096, 4097, 8191, 8192, 8193, 16383, 16384, 16385, 20000, 33000]:
+        for shape in range(2):
+            v = bytes(rng.choice([65, 66, 44, 48, 10, 92]) for _ in range(ln))
+            fields = [(b"ENTRIES", v)] + ([(b"COUNT", b"250"), (b"CODE", b"OK_LIST")] if shape else [])
+            ints = [1, 1, len(fields)]
+            for k, v2 in fields:
+                ints += lp(k) + lp(v2)
+            ints += ([1] + lp(b"payload after a long header")) if shape else [0]
+            cases.append({"ints": ints, "tag": "roundtrip-long"})
     for _ in range(n // 4):
         raw = rng.choice([b"", b"STATUS:OK\n", b"STATUS:OK\nA:1\n\n", b"A:1\n\n", b"STATUS:OK\nPAYLOAD-LENGTH:5\n\nabc", b"STATUS:OK\nPAYLOAD-LENGTH:x\n\n",
                           b"status:ok\nk:v\\n\\\\x\n\n", b"STATUS:OK\nnocolon\nB:2\n\n", bytes(rng.randrange(256) for _ in range(rng.choice([1, 20, 200])))])
         cases.append({"ints": [2] + lp(raw), "tag": "client-raw"})
-    for k in [0, 1, 2, 3, 10, 40] + ([300] if tier != "quick" else []):
+    for k in [0, 1, 2, 3, 10, 40, 120, 300] + ([1000] if tier != "quick" else []):
         cases.append({"ints": [5, 0, k], "tag": "list"})
     # chunks in their last second (remaining TTL shows as 0 s), just expired, and well alive
     for k, k2, adv in [(2, 1, 29500), (0, 3, 29999), (1, 2, 29001), (3, 2, 30000), (2, 2, 30001), (1, 1, 15000), (0, 1, 29000), (0, 2, 1)]:
